@@ -2,6 +2,7 @@ import YakModel.UnitCheck
 import YakModel.SeqCheck
 import YakModel.SessCheck
 import YakModel.EpochCheck
+import YakModel.VersCheck
 
 open Yak
 
@@ -122,6 +123,41 @@ partial def runEpoch (h : IO.FS.Stream) : IO UInt32 := do
   IO.println s!"checked {lineNo} diffs {bad}"
   return (if bad == 0 then 0 else 1)
 
+/-- version-word monitor: every successful CAS on a version word is one atomic operation of the
+    `Version` model, locks are exclusive, stable reads are clean -/
+partial def runVers (h : IO.FS.Stream) : IO UInt32 := do
+  let mut st : VersCheck.St := {}
+  let mut runs := 0
+  let mut bad := 0
+  let mut locks := 0
+  let mut unlocks := 0
+  let mut flags := 0
+  let mut incs := 0
+  let mut stables := 0
+  let mut lineNo := 0
+  let mut dead := false
+  repeat
+    let line ← h.getLine
+    if line.isEmpty then break
+    let l := line.trimAscii.toString
+    lineNo := lineNo + 1
+    if l.startsWith "RUN " then
+      locks := locks + st.locks; unlocks := unlocks + st.unlocks; flags := flags + st.flags; incs := incs + st.incs; stables := stables + st.stables
+      st := {}
+      runs := runs + 1
+      dead := false
+    else if (l.startsWith "V " || l.startsWith "S ") && !dead then
+      match VersCheck.step st l with
+      | .ok st' => st := st'
+      | .error e =>
+        bad := bad + 1
+        dead := true
+        if bad ≤ 5 then IO.println s!"DIFF class versionword run {runs} line {lineNo}: {l} :: {e}"
+  locks := locks + st.locks; unlocks := unlocks + st.unlocks; flags := flags + st.flags; incs := incs + st.incs; stables := stables + st.stables
+  IO.println s!"STATS runs={runs} lock_transitions={locks} unlock_transitions={unlocks} flag_transitions={flags} counter_increments={incs} stable_reads={stables}"
+  IO.println s!"checked {lineNo} diffs {bad}"
+  return (if bad == 0 then 0 else 1)
+
 def cfgOf : String → Tree.Cfg
   | "d2" => { fixD2 := false }
   | "d5" => { fixD5 := false }
@@ -136,6 +172,7 @@ def main (args : List String) : IO UInt32 := do
   | ["seq"] => runSeq stdin {} []
   | ["sess", n] => runSess stdin (n.toNat?.getD 8)
   | ["epoch"] => runEpoch stdin
+  | ["vers"] => runVers stdin
   | _ => do
     IO.eprintln "usage: yakmodel unit | seq [fixed|d2|d5|d2d5] [focus classes…] < transcript"
     return 2
